@@ -254,10 +254,11 @@ def _data(seed, n, n_ch, fill, poisson):
 _PREC_CACHE = {}
 
 
-def _prec(seed, n_ch):
-    key = (seed, n_ch)
+def _prec(seed, n_ch, which=0):
+    """SPD precision matrix (a fresh copy); `which` > 0: further matrices (one per dataset of a list)"""
+    key = (seed, n_ch, which)
     if key not in _PREC_CACHE:
-        s = spd(rng_for(seed, 'c15prec', n_ch), n_ch)
+        s = spd(rng_for(seed, 'c15prec', n_ch, *([which] if which else [])), n_ch)
         _PREC_CACHE[key] = np.round((s + s.T) / 2.0, 4)
     return _PREC_CACHE[key].copy()
 
@@ -756,7 +757,179 @@ def run_case(case, ctx):
     if kind == 'seq':
         _run_seq(case, ctx)
         return
+    if kind == 'list':
+        _run_list(case, ctx)
+        return
     _run_structured(case, ctx)
+
+
+# ----------------------------------------------------------------------------- input forms: lists of datasets
+# (container of the datasets, form of the noise argument)
+LIST_FORMS = [('list', 'none'), ('list', 'shared2d'), ('list', 'perlist'), ('tuple', 'shared2d'),
+              ('list', 'pertuple'), ('tuple', 'array3d')]
+_LIST_SINGLE = {}
+
+
+def _list_members(case, seed):
+    """-> per member dataset: (X, labels or None, folds or None)"""
+    out = []
+    poisson = case['method'] in ('poisson', 'poisson_cv')
+    for r, m in enumerate(case['members']):
+        labels, folds, n = _structure({'design': dict(m, type='lab')})
+        if case['desc'] is None:
+            labels = None
+        if not case['cv']:
+            folds = None
+        rows = [list(row) for row in _data(seed, n, case['P'], r % 3, poisson)]
+        if r == 0:
+            for c in case['mask']:
+                rows[c // case['P']][c % case['P']] = ref.NAN
+        out.append((np.array(rows, dtype=float), labels, folds))
+    return out
+
+
+def _list_dataset(X, labels, folds, r):
+    ds = _dataset(X.copy(), labels, folds)
+    ds.descriptors = {'subj': 's%d' % r, 'sess': 3}
+    return ds
+
+
+def _rdm_desc(rd, name, r):
+    if rd.rdm_descriptors is not None and name in rd.rdm_descriptors:
+        try:
+            return True, ref.plain(rd.rdm_descriptors[name][r])
+        except Exception:  # noqa: BLE001
+            return False, None
+    if name in rd.descriptors:
+        return True, ref.plain(rd.descriptors[name])
+    return False, None
+
+
+def _run_list(case, ctx):
+    """calc_rdm_unbalanced on a single dataset object / a list / a tuple of datasets with the noise given as
+    None / one shared 2-D matrix / list / tuple / 3-D array of per-dataset matrices: the RDM of every
+    dataset must be the one the single-dataset call with the same options returns (those calls are judged
+    by the other blocks), attached to that dataset's descriptors, in the first dataset's condition order"""
+    from rsatoolbox.rdm import calc_rdm_unbalanced
+    n_ch = case['P']
+    method, weighting = case['method'], case['weighting']
+    dsform, noiseform = case['forms']
+    if case['mask'] and noiseform != 'none' and method in ('mahalanobis', 'crossnobis') and not EXPLORE_OOB:
+        ctx.count(KNOWN_SKIP)
+        return
+    members = _list_members(case, ctx.seed)
+    nm = len(members)
+    if noiseform == 'none':
+        precs = [None] * nm
+    elif noiseform == 'shared2d':
+        precs = [_prec(ctx.seed, n_ch)] * nm
+    else:
+        precs = [_prec(ctx.seed, n_ch, r + 1) for r in range(nm)]
+    desc = case['desc']
+    cvd = 'fold' if case['cv'] else None
+    cls = 'input=%s,noise=%s' % (dsform, noiseform)
+    prior = case.get('prior') or [1, 0.1]
+    kw = {'method': method, 'descriptor': desc, 'cv_descriptor': cvd, 'weighting': weighting,
+          'prior_lambda': prior[0], 'prior_weight': prior[1]}
+    name = 'cond' if desc else 'index'
+    # ---- the single-dataset calls with the same options
+    singles = []
+    for r, (X, labels, folds) in enumerate(members):
+        key = (ctx.seed, json.dumps(_runner.jsonable([case['members'][r], case['mask'] if r == 0 else [], r % 3,
+                                                       n_ch, method, weighting, desc, cvd, prior])),
+               None if precs[r] is None else precs[r].tobytes())
+        hit = _LIST_SINGLE.get(key)
+        if hit is None:
+            try:
+                rd = calc_rdm_unbalanced(_list_dataset(X, labels, folds, r), noise=None if precs[r] is None
+                                         else precs[r].copy(), **kw)
+                hit = ([ref.plain(v) for v in rd.pattern_descriptors[name]],
+                       np.asarray(rd.dissimilarities, dtype=float)[0])
+            except _PASS:
+                raise
+            except Exception as e:  # noqa: BLE001
+                hit = ('raises', type(e).__name__)
+            if len(_LIST_SINGLE) > 20000:
+                _LIST_SINGLE.clear()
+            _LIST_SINGLE[key] = hit
+        if hit[0] == 'raises':
+            ctx.exclude('single-dataset call raises %s (judged by the other blocks)' % hit[1])
+            return
+        singles.append(hit)
+    # ---- the call under test
+    dss = [_list_dataset(X, labels, folds, r) for r, (X, labels, folds) in enumerate(members)]
+    if noiseform == 'none':
+        noise = None
+    elif noiseform == 'shared2d':
+        noise = precs[0].copy()
+    elif noiseform == 'perlist':
+        noise = [q.copy() for q in precs]
+    elif noiseform == 'pertuple':
+        noise = tuple(q.copy() for q in precs)
+    elif noiseform == 'array3d':
+        noise = np.array(precs)
+    else:
+        raise ValueError(noiseform)
+    arg = dss[0] if dsform == 'single' else (list(dss) if dsform == 'list' else tuple(dss))
+    before = [_snap_ds(d) for d in dss]
+    nsnap = _snap(noise) if noise is not None else None
+    try:
+        rd = calc_rdm_unbalanced(arg, noise=noise, **kw)
+    except _PASS:
+        raise
+    except Exception as e:  # noqa: BLE001
+        # the single-dataset calls with the same options succeeded: the joint call must not raise
+        sizes = 'equal-n_obs' if len(set(X.shape[0] for X, _, _ in members)) == 1 else 'different-n_obs'
+        _fail_exc(ctx, 'calc_rdm_unbalanced|input=%s,%s' % ('single' if dsform == 'single' else 'list-of-datasets',
+                                                            sizes), case, e)
+        ctx.case(case, nontrivial=False)
+        return
+    for r, d in enumerate(dss):
+        _args_unchanged(ctx, 'calc_rdm_unbalanced', case, d, before[r])
+    if noise is not None and _snap(noise) != nsnap:
+        ctx.fail('calc_rdm_unbalanced|any|modifies-argument:noise', case, 'the noise argument (%s) changed' % noiseform)
+    ctx.case(case)
+    vecs = np.asarray(rd.dissimilarities, dtype=float)
+    labs0, vec0 = singles[0]
+    k = len(labs0)
+    if vecs.ndim != 2 or vecs.shape[0] != nm or rd.n_rdm != nm:
+        ctx.fail('calc_rdm_unbalanced|%s|n-rdm' % cls, case, '%r dissimilarities for %d datasets' % (vecs.shape, nm))
+        return
+    pd = rd.pattern_descriptors.get(name)
+    got_labs = None if pd is None else [ref.plain(v) for v in pd]
+    if got_labs != labs0 or vecs.shape[1] != len(vec0):
+        ctx.fail('calc_rdm_unbalanced|%s|labels' % cls, case, 'pattern descriptor %r is %r; the first dataset alone '
+                 'gives %r (%d values returned, %d expected)' % (name, got_labs, labs0, vecs.shape[1], len(vec0)))
+        return
+    unit = _unit(case)
+    for r in range(nm):
+        labs_r, vec_r = singles[r]
+        pos = [ref.find_label(lab, labs_r) for lab in labs0]
+        if None in pos or len(labs_r) != k:
+            ctx.exclude('datasets of one list with different condition sets')
+            return
+        for a in range(k):
+            for b in range(a + 1, k):
+                g = vecs[r, _vec_index(a, b, k)]
+                w = vec_r[_vec_index(pos[a], pos[b], k)]
+                if not _close(g, w, TOL_INV, unit):
+                    ctx.fail('calc_rdm_unbalanced|%s|differs-from-single-dataset-call' % cls, case,
+                             'dataset %d, pair (%r,%r): %.12g in the joint call, %.12g when the dataset is passed '
+                             'alone with the same options (method=%s, cv_descriptor=%r, weighting=%s)' % (
+                                 r, labs0[a], labs0[b], g, w, method, cvd, weighting))
+                    break
+            else:
+                continue
+            break
+        for dname, want in (('subj', 's%d' % r), ('sess', 3)):
+            ok, val = _rdm_desc(rd, dname, r)
+            if not ok:
+                ctx.fail('calc_rdm_unbalanced|%s|rdm-descriptor-missing' % cls, case,
+                         'dataset descriptor %r not on RDM %d: rdm_descriptors %r' % (dname, r, rd.rdm_descriptors))
+            elif val != want:
+                ctx.fail('calc_rdm_unbalanced|%s|rdm-descriptor-wrong' % cls, case,
+                         'RDM %d carries %s=%r, its dataset has %r' % (r, dname, val, want))
+    ctx.outcome([round(float(v), 6) if v == v else 'nan' for v in vecs[-1][:2]])
 
 
 # ----------------------------------------------------------------------------- sequences of calls on one object
@@ -1051,6 +1224,13 @@ def shards(tier, seed):
             for p in range(0, combi.BELL[5], 4):
                 out.append({'kind': 'scale', 'ns': [5], 'P': n_ch, 'parts': [p, min(combi.BELL[5], p + 4)]})
         out.append({'kind': 'scalebal', 'P': n_ch})
+    # input forms: single object / list / tuple of datasets x noise forms x cv_descriptor x descriptor
+    for K in (2, 3):
+        out.append({'kind': 'list', 'K': K, 'P': 3, 'len': 1})
+        nfirst = len(_k_partitions(K, 5 if th else 4))
+        for p in range(0, nfirst, 3 if th else 4):
+            out.append({'kind': 'list', 'K': K, 'P': 3, 'len': 2, 'first': [p, min(nfirst, p + (3 if th else 4))]})
+        out.append({'kind': 'list', 'K': K, 'P': 3, 'len': 3})
     # every labeling x every fold partition
     for n_ch in (2, 3):
         out.append({'kind': 'foldpart', 'ns': [2, 3], 'P': n_ch, 'parts': None})
@@ -1068,6 +1248,11 @@ def shards(tier, seed):
             for order in ('byfold', 'bycond', 'rev', 'mix'):
                 out.append({'kind': 'bal', 'K': K, 'M': M, 'R': R, 'P': n_ch, 'order': order})
     return out
+
+
+def _k_partitions(K, nmax):
+    """every set partition of n in K..nmax observations into exactly K conditions"""
+    return [p for n in range(K, nmax + 1) for p in _partitions(n) if max(p) + 1 == K]
 
 
 def _variants(fill, has_nan, idx, tier):
@@ -1154,6 +1339,41 @@ def run_shard(shard, ctx):
                                                   'variants': _variants(fill, bool(mask), idx, ctx.tier),
                                                   'design': {'type': 'lab', 'part': part, 'naming': 'index',
                                                              'fold': fold, 'extra': extra}}, ctx)
+    elif kind == 'list':
+        K = shard['K']
+        pool = _k_partitions(K, 5 if th else 4)
+        if shard['len'] == 1:
+            structs = [[p] for p in pool]
+        elif shard['len'] == 2:
+            lo, hi = shard['first']
+            structs = [[p, q] for p in pool[lo:hi] for q in pool]
+        else:       # triples: every partition once in every position
+            structs = [[pool[i], pool[(i + 3) % len(pool)], pool[(2 * i + 1) % len(pool)]] for i in range(len(pool))]
+        methods = ['euclidean', 'correlation', 'mahalanobis', 'crossnobis', 'poisson', 'poisson_cv']
+        for si, parts in enumerate(structs):
+            namings = ['str'] * 3 if si % 4 == 3 else ['desc', 'asc', 'desc']
+            members = [{'part': part, 'naming': namings[r], 'fold': 'occ' if r % 2 == 0 else 'alt'}
+                       for r, part in enumerate(parts)]
+            same_n = len(set(len(p) for p in parts)) == 1
+            forms = LIST_FORMS if len(parts) > 1 else (
+                [('single', nf) for nf in ('none', 'shared2d')] +
+                [('list', nf) for nf in ('none', 'shared2d', 'perlist', 'array3d')] + [('tuple', 'pertuple')])
+            for fi, forms_i in enumerate(forms):
+                for desc in (('cond', None) if same_n else ('cond',)):
+                    if desc is None and (fi + si) % 2:
+                        continue        # descriptor=None (equal n_obs only) on every second form
+                    # every method on every 4th structure, two rotating methods elsewhere
+                    msel = methods if si % 4 == 0 else [methods[(si + fi) % 6], methods[(si + fi + 3) % 6]]
+                    for mask in ([], [0]) if (fi + si) % 3 == 0 else ([],):
+                        for method in msel:
+                            for weighting in W2:
+                                for cv in (False, True):
+                                    case = {'kind': 'list', 'P': n_ch, 'members': members, 'forms': list(forms_i),
+                                            'desc': desc, 'cv': cv, 'method': method, 'weighting': weighting,
+                                            'mask': mask}
+                                    if method in ('poisson', 'poisson_cv'):
+                                        case['prior'] = [2, 0.5]
+                                    run_case(case, ctx)
     elif kind == 'seq':
         for n in shard['ns']:
             parts = _partitions(n)
